@@ -672,8 +672,14 @@ func (s *Service) ProcessRequest(ctx *core.Context, m map[string]interface{}, ou
 		}
 
 		code, _, err := GetStringParam(m, "code", true)
+		if err != nil {
+			return nil, err
+		}
 
 		encoding, provided, err := GetStringParam(m, "encoding", false)
+		if err != nil {
+			return nil, err
+		}
 		if provided {
 			code, err = core.DecodeString(encoding, code)
 			if err != nil {
@@ -861,7 +867,9 @@ func (s *Service) ProcessRequest(ctx *core.Context, m map[string]interface{}, ou
 
 		ctx.LogAccumulatorLevel = core.EVERYTHING
 		// ToDo: Support number of steps to take.
-		err = s.System.RetryEventWork(ctx, location, &fr)
+		if err = s.System.RetryEventWork(ctx, location, &fr); err != nil {
+			return nil, err
+		}
 		js, err := json.Marshal(fr)
 		if err != nil {
 			return nil, err
@@ -889,6 +897,9 @@ func (s *Service) ProcessRequest(ctx *core.Context, m map[string]interface{}, ou
 		}
 
 		id, _, err := GetStringParam(m, "id", false)
+		if err != nil {
+			return nil, err
+		}
 
 		// ToDo: Not this.
 		js, err := json.Marshal(fact)
@@ -1002,8 +1013,8 @@ func (s *Service) ProcessRequest(ctx *core.Context, m map[string]interface{}, ou
 				_, err := s.System.RemFact(ctx, location, found.Id)
 				if err != nil {
 					core.Log(core.ERROR, ctx, "service.ProcessRequest", "app_tag", "/api/loc/facts/search", "error", err, "RemFact", found.Id)
+					return nil, err
 				}
-				// ToDo: Something with error.
 			}
 		}
 
@@ -1018,18 +1029,24 @@ func (s *Service) ProcessRequest(ctx *core.Context, m map[string]interface{}, ou
 	case "/api/loc/facts/take": // Params: pattern
 		m["uri"] = "/api/loc/facts/search"
 		m["take"] = true
-		s.ProcessRequest(ctx, m, out)
+		if _, err := s.ProcessRequest(ctx, m, out); err != nil {
+			return nil, err
+		}
 
 	case "/api/loc/facts/replace": // Params: pattern, fact
 		// Really a 'take' followed by a 'add'.
 		m["uri"] = "/api/loc/facts/search"
 		m["take"] = true
 		core.Log(core.INFO, ctx, "service.ProcessRequest", "app_tag", "/api/loc/facts/replace", "phase", "take")
-		s.ProcessRequest(ctx, m, ioutil.Discard)
+		if _, err := s.ProcessRequest(ctx, m, ioutil.Discard); err != nil {
+			return nil, err
+		}
 
 		core.Log(core.INFO, ctx, "service.ProcessRequest", "app_tag", "/api/loc/facts/replace", "phase", "add")
 		m["uri"] = "/api/loc/facts/add"
-		s.ProcessRequest(ctx, m, out)
+		if _, err := s.ProcessRequest(ctx, m, out); err != nil {
+			return nil, err
+		}
 
 	case "/api/loc/facts/query": // Params: query
 		query, _, err := getMapParam(m, "query", true)
@@ -1109,6 +1126,9 @@ func (s *Service) ProcessRequest(ctx *core.Context, m map[string]interface{}, ou
 		}
 
 		id, _, err := GetStringParam(m, "id", false)
+		if err != nil {
+			return nil, err
+		}
 
 		// ToDo: Not this.
 		js, err := json.Marshal(rule)
@@ -1257,6 +1277,9 @@ func (s *Service) ProcessRequest(ctx *core.Context, m map[string]interface{}, ou
 		}
 
 		js, given, err := GetStringParam(m, "set", false)
+		if err != nil {
+			return nil, err
+		}
 
 		if given {
 			var parents []string
